@@ -475,6 +475,11 @@ impl RequestIdManager {
 		self.id_kind.into_id(self.current_id.next())
 	}
 
+	/// Reserves `len` consecutive request IDs, e.g. for a batch request, and returns the first one.
+	pub fn next_request_id_range(&self, len: usize) -> Id<'static> {
+		self.id_kind.into_id(self.current_id.next_range(len))
+	}
+
 	/// Get a handle to the `IdKind`.
 	pub fn as_id_kind(&self) -> IdKind {
 		self.id_kind
@@ -509,8 +514,12 @@ impl CurrentId {
 	}
 
 	fn next(&self) -> u64 {
+		self.next_range(1)
+	}
+
+	fn next_range(&self, len: usize) -> u64 {
 		self.0
-			.fetch_add(1, Ordering::Relaxed)
+			.fetch_add(len.max(1), Ordering::Relaxed)
 			.try_into()
 			.expect("usize -> u64 infallible, there are no CPUs > 64 bits; qed")
 	}
